@@ -21,7 +21,9 @@ def H : Nat := 2147483648
 def importedAcct : Nat := 2147483647
 def maxAddrs : Nat := 2147483647
 
-/-- quirks of the Go code that differ between the trees this model has to follow (probed on the real code) -/
+/-- Defects the Go code used to have (DESIGN §7); every one of them is fixed in the official tree (fd5efc1, 37f56ec,
+    2a11dd6, b81a3ff, b93c391).  The property theorems and the differential run use `Cfg.fixed` only; the `true`
+    branches survive for the counter-example theorems, which document what reverting a fix breaks. -/
 structure Cfg where
   f3 : Bool := false  -- `extendAddresses`: `watchOnly := … || acctKeyPriv != nil` (inverted test, DESIGN §7 F3)
   f2 : Bool := false  -- `Unlock` tries to decrypt the nil key of a cached watch-only account and fails (F2)
@@ -30,6 +32,9 @@ structure Cfg where
   t1 : Bool := false  -- `deletePrivateKeys` leaves secret taproot script rows in place
   l1 : Bool := false  -- `NewScopedKeyManager` writes no `lastaccount` row: the first new account of the scope is 0 again
   deriving Repr, Inhabited, DecidableEq
+
+/-- the official tree: no defect -/
+abbrev Cfg.fixed : Cfg := {}
 
 structure HD (K P : Type) where
   child : K → Nat → Option K
